@@ -175,6 +175,34 @@ def run(prog, rep, tier):
     if obs:
         rep.info("environment failures unwrapped (unreadable-file scenario, outside the property's arbitrary-content quantifier): %s" % sorted(set(obs))[:6])
 
+    # ------------------------------------------------------------ R7.9 stored modification times convert without panicking
+    # The modification time of a tar member is a number read from the archive header (up to 2^63);
+    # it reaches SystemTime and chrono through seconds_to_systemtime / systemtime_to_datetime in the
+    # worker threads.  chrono's `DateTime<Utc>: From<SystemTime>` and `Option::unwrap` on
+    # SystemTime::checked_add panic outside their range, and panic=abort ends the whole run.
+    R79 = rep.rule("R7.9", "conversions of header-stored modification times are total (no panicking conversion)")
+    DTm = "s4lib::data::datetime::"
+    br_m = prog.body("s4lib::readers::blockreader::BlockReader::new", required=False)
+    conv = [DTm + "seconds_to_systemtime", DTm + "systemtime_to_datetime"]
+    users = sorted(p for p, cs in prog.callgraph().items() if any(c in cs for c in conv) and "_tests" not in p and (p in reach or p in prog.reachable_fns(["s4::main"])))
+    for fn in conv:
+        fb = prog.body(fn)
+        bad = []
+        for c in fb.live_calls():
+            nm = c.d
+            if ("From<std::time::SystemTime>" in nm and "chrono" in nm) or (nm.endswith("Into<U>>::into") and "SystemTime" in str(fb.local_ty(op_local(c.args[0])) if c.args and op_local(c.args[0]) is not None else "")):
+                bad.append(("DateTime<Utc>::from(SystemTime)", c.line))
+            if nm.split("::")[-1] in ("unwrap", "expect") and c.args:
+                for o in fb.origins(c.args[0]):
+                    if o[0] == "call" and o[2].split("::")[-1] in ("checked_add", "checked_sub", "timestamp_opt", "single", "from_timestamp", "duration_since"):
+                        bad.append(("%s().%s()" % (o[2].split("::")[-1], nm.split("::")[-1]), c.line))
+        rep.examined(R79, fn, sample={"converter": fn.split("::")[-1], "worker_or_main_callers": [u.split("::")[-1] for u in users][:8], "panicking_conversions": bad})
+        for what_, line_ in bad[:1]:
+            rep.violation(R79, fn, "%s: %s (line %d) panics for a time outside its range; a tar member whose header stores a huge modification time (e.g. 2^62) "
+                          "aborts the run (exit 134), and every other source loses its output" % (fn.split("::")[-1], what_, line_))
+    if not users:
+        raise CheckerError("R7.9: the modification-time converters have no caller reachable from the workers or main")
+
     # ------------------------------------------------------------ R7.8
     import signedidx
     R78 = rep.rule("R7.8", "a signed record field converted to usize (table index) is guarded non-negative")
